@@ -563,12 +563,25 @@ fn exec_free(plan: &Plan, ctx: &mut RunCtx) -> VResult {
     let mut counts = Vec::new();
     do_poll(&mut st, &mut counts)?;
     let mut total_wakes = st.sh.lock().unwrap().wakes_done;
-    let base: Vec<Option<Waker>> = std::mem::replace(&mut st.sh.lock().unwrap().handles, (0..NH).map(|_| None).collect());
-    // phase 2
+    let mut base: Vec<Option<Waker>> = std::mem::replace(&mut st.sh.lock().unwrap().handles, (0..NH).map(|_| None).collect());
+    // phase 2: every thread holds one handle per record — the original goes to one thread, clones to
+    // the others, the executor keeps none — so that the last releases of a record race
+    let mut per_thread: Vec<Vec<Option<Waker>>> = (0..threads).map(|_| Vec::new()).collect();
+    for (i, h) in base.iter_mut().enumerate() {
+        for (t, pt) in per_thread.iter_mut().enumerate() {
+            if t == i % threads {
+                continue;
+            }
+            pt.push(h.as_ref().map(|w| w.clone()));
+        }
+        let orig = h.take();
+        let pt = &mut per_thread[i % threads];
+        let at = i.min(pt.len());
+        pt.insert(at, orig);
+    }
     let done: Vec<u64> = std::thread::scope(|sc| {
         let mut hs = Vec::new();
-        for t in 0..threads {
-            let mine: Vec<Option<Waker>> = base.iter().map(|h| h.clone()).collect();
+        for (t, mine) in per_thread.into_iter().enumerate() {
             let steps = &plan.steps;
             hs.push(sc.spawn(move || {
                 let sh = Mutex::new(Shared { pending: Vec::new(), handles: mine, wakes_done: 0, effective: 0, reentrant: 0, log: Vec::new(), ready: false });
